@@ -13,6 +13,7 @@ import (
 	"os/exec"
 	"path/filepath"
 	"regexp"
+	"slices"
 	"sort"
 	"strconv"
 	"strings"
@@ -440,6 +441,22 @@ func TestC14_RealRotation(t *testing.T) {
 			dir := filepath.Join(base, strconv.Itoa(r))
 			_ = os.MkdirAll(dir, 0o755)
 			name := []string{"app.log", "svc"}[r%2]
+			// an earlier life of the same directory and name in this process (the application was
+			// reconfigured): the file it wrote is an own file like any other once it is old
+			a0 := newAppender(dir, name, 1+r)
+			a0.Rotation = log.TimeRotation{Interval: time.Second}
+			if err := a0.Start(); err != nil {
+				errs <- fmt.Errorf("VERIF-INCONCLUSIVE: %v", err)
+				return
+			}
+			a0.Write([]byte("first life\n"))
+			a0.Stop()
+			var firstLife string
+			for n := range list(dir) {
+				firstLife = n
+			}
+			now := time.Now()
+			time.Sleep(now.Truncate(time.Second).Add(time.Second + 30*time.Millisecond).Sub(now))
 			a := newAppender(dir, name, 1+r)
 			a.Rotation = log.TimeRotation{Interval: time.Second}
 			if err := a.Start(); err != nil {
@@ -448,6 +465,9 @@ func TestC14_RealRotation(t *testing.T) {
 			}
 			old := time.Now().Add(-time.Duration(2+r) * time.Hour)
 			victims := []string{name + ".20200101000000", name + ".20210203040506"}
+			if firstLife != "" {
+				_ = os.Chtimes(filepath.Join(dir, firstLife), old, old)
+			}
 			keepers := []string{name + ".wf.20200101000000", name + ".bak", name + ".1.gz", name + ".2020010100000", "other.20200101000000", name + ".20200101000000.gz"}
 			for _, f := range append(append([]string{}, victims...), keepers...) {
 				p := filepath.Join(dir, f)
@@ -462,13 +482,13 @@ func TestC14_RealRotation(t *testing.T) {
 				a.Write([]byte("tick\n"))
 				time.Sleep(50 * time.Millisecond)
 				l := list(dir)
-				gone = !l[victims[0]] && !l[victims[1]]
+				gone = !l[victims[0]] && !l[victims[1]] && !l[firstLife]
 			}
 			a.Stop()
 			time.Sleep(100 * time.Millisecond)
 			l := list(dir)
 			if !gone {
-				errs <- fmt.Errorf("after real rotations over 20 s the expired own files %v were not removed", victims)
+				errs <- fmt.Errorf("after real rotations over 20 s the expired own files %v and %s (written by an earlier appender on the same directory and name in this process, then aged) were not all removed; left: %v", victims, firstLife, l)
 				return
 			}
 			for _, k := range append(keepers, name+".20190101000000") {
@@ -519,6 +539,9 @@ func TestC14_RealRotation(t *testing.T) {
 		gone := false
 		for n := 0; time.Now().Before(deadline) && !gone; n++ {
 			log.Info(context.Background(), tagRL, log.Int("id", n))
+			if n%3 == 2 {
+				log.Warn(context.Background(), tagRL, log.Int("id", n)) // with separate=true: the .wf appender rotates and cleans up too
+			}
 			time.Sleep(50 * time.Millisecond)
 			l := list(dir)
 			gone = !l[victims[0]] && !l[victims[1]]
@@ -534,6 +557,18 @@ func TestC14_RealRotation(t *testing.T) {
 		}
 		if !separate {
 			keepers = append(keepers, wf...)
+		}
+		// what was written during this run is seconds old: it stays, in both files
+		young := map[bool]int{}
+		for n := range l {
+			if strings.HasPrefix(n, "app.log.wf.2") && !slices.Contains(wf, n) {
+				young[true]++
+			} else if m := regexp.MustCompile(`^app\.log\.\d{14}$`).MatchString(n); m && !slices.Contains(victims, n) {
+				young[false]++
+			}
+		}
+		if young[false] == 0 || separate && young[true] == 0 {
+			t.Fatalf("VERIF-VIOLATION C14: RollingFile logger (separate=%v, maxAge=1h): of the files written during the last seconds %d app.log.<ts> and %d app.log.wf.<ts> are left - files younger than the maximum age are never deleted; directory: %v", separate, young[false], young[true], l)
 		}
 		for _, k := range keepers {
 			if !l[k] {
